@@ -133,24 +133,32 @@ def check_partition(ctx):
                     continue
                 ctx.holds(rule, fi, st, 'order-preserving exhaustive partition into runs, no filter', node.lineno, clause='c')
     ctx.unit('groupby_sites', n)
-    # consumers: for k, group in grouped: every branch passes group to a generator whose result reaches codes
-    for mname in ('generate_code', 'generate_code_for_fixed_fields'):
-        fi = cg.methods.get(mname)
-        if fi is None:
-            ctx.undecided(rule, (cg.file, 'CodeGenerator.' + mname), mname, 'anchor not found')
-            continue
-        for lp in [x for x in ast.walk(fi.node) if isinstance(x, ast.For) and isinstance(x.target, ast.Tuple) and len(x.target.elts) == 2]:
-            if not isinstance(lp.iter, ast.Name):
-                continue
-            grp = lp.target.elts[1].id if isinstance(lp.target.elts[1], ast.Name) else None
-            if grp is None:
-                continue
-            st = '%s: for %s in %s' % (mname, unparse(lp.target), unparse(lp.iter))
-            missing = branches_dropping(lp.body, grp)
-            if missing:
-                ctx.violation(rule, fi, st, 'a branch of the loop does not turn the run into code blocks appended to the result (%s): those fields are skipped by the generated code' % missing, lp.lineno, clause='c')
-            else:
-                ctx.holds(rule, fi, st, 'every branch appends the blocks generated for the run, in order', lp.lineno, clause='c')
+    # consumers: for k, group in <runs>: on every path through the loop body the run reaches
+    # an append / extend (directly, or through a loop over its sub-runs whose every path does)
+    fi = cg.methods.get('generate_code')
+    if fi is None:
+        ctx.undecided(rule, (cg.file, 'CodeGenerator.generate_code'), 'generate_code', 'anchor not found')
+    else:
+        w = repo.walker(inline_depth=3, max_paths=ctx.max_paths)
+        seen_loops = set()
+        nloops = 0
+        for p in w.paths(fi.node, cls=cg):
+            for e in p.effects:
+                if e.kind != 'loop' or e.sub['kind'] != 'for' or id(e.node) in seen_loops:
+                    continue
+                it = e.sub['iter']
+                if it is None or not any(isinstance(x, ast.Call) and call_name(x) in ('itertools.groupby', 'groupby') for x in ast.walk(it)):
+                    continue
+                seen_loops.add(id(e.node))
+                nloops += 1
+                st = 'generate_code: for %s in %s' % (unparse(e.node.target), unparse(e.node.iter))
+                missing = paths_dropping(e)
+                if missing:
+                    ctx.violation(rule, fi, st, 'a path through the loop body does not turn the run into code blocks appended to the result (%s): those fields are skipped by the generated code' % missing[0], e.node.lineno, clause='c')
+                else:
+                    ctx.holds(rule, fi, st, 'every path through the body appends the blocks generated for the run (or for each of its sub-runs), in order', e.node.lineno, clause='c')
+        if not nloops:
+            ctx.undecided(rule, fi, 'generate_code', 'no loop over the runs of the field list found', fi.node.lineno, clause='c')
     # loop blocks: zip(range(group[0][0], group[-1][0] + 1), [g[1] for g in group])
     for mname in ('generate_code_for_loop_pack', 'generate_code_for_loop_unpack'):
         fi = cg.methods.get(mname)
@@ -226,42 +234,33 @@ def enclosing_comp(func, node):
     return None
 
 
-def branches_dropping(stmts, grp):
-    """names of branches in which the run ``grp`` does not reach codes.append/extend"""
-    def consumes(ss):
-        derived = {grp}
-        for s in ss:
-            # names computed from the run (e.g. its sub-runs by endianness) carry it on
-            if isinstance(s, ast.Assign) and any(isinstance(x, ast.Name) and x.id in derived for x in ast.walk(s.value)):
-                for t in s.targets:
-                    if isinstance(t, ast.Name):
-                        derived.add(t.id)
-            for n in ast.walk(s):
-                if isinstance(n, ast.Call) and isinstance(n.func, ast.Attribute) and n.func.attr in ('append', 'extend') \
-                        and any(isinstance(x, ast.Name) and x.id in derived for a in n.args for x in ast.walk(a)):
-                    return True
-        return False
+def paths_dropping(loop_eff):
+    """descriptions of the body paths of a loop over runs on which the run (the loop item) does
+    not reach an append / extend"""
+    n = loop_eff.sub['phi']
+    item = '<item of %s>' % n
+
+    def mentions(e):
+        return e is not None and any(isinstance(x, ast.Name) and x.id == item for x in ast.walk(e))
 
     missing = []
-
-    def go(ss, label):
-        ifs = [s for s in ss if isinstance(s, ast.If)]
-        direct = consumes([s for s in ss if not isinstance(s, ast.If)])
-        if direct:
-            return
-        if not ifs:
-            missing.append(label)
-            return
-        for i in ifs:
-            go(i.body, label + '/if %s' % unparse(i.test)[:30])
-            if i.orelse:
-                go(i.orelse, label + '/else')
-            else:
-                missing.append(label + '/no else for %s' % unparse(i.test)[:30])
-        if any(isinstance(s, (ast.Continue, ast.Break)) for s in ss):
-            missing.append(label + '/continue')
-
-    go(stmts, 'loop')
+    for bp in loop_eff.sub['body']:
+        if bp.raises():
+            continue
+        ok = False
+        for e in bp.effects:
+            if e.kind == 'call' and isinstance(e.call.func, ast.Attribute) and e.call.func.attr in ('append', 'extend', 'insert') \
+                    and any(mentions(a) for a in e.call.args):
+                ok = True
+            elif e.kind == 'call' and isinstance(e.call.func, ast.Attribute) and e.call.func.attr in ('append', 'extend') \
+                    and any(isinstance(x, ast.Name) and x.id.endswith('out') and '@phi' in x.id for a in e.call.args for x in ast.walk(a)):
+                # blocks accumulated by an inner loop (a local list extended there) are appended here
+                ok = ok or any(i.kind == 'loop' and mentions(i.sub['iter']) and not paths_dropping(i) for i in bp.effects)
+            elif e.kind == 'loop' and e.sub['kind'] == 'for' and mentions(e.sub['iter']):
+                if not paths_dropping(e):
+                    ok = True
+        if not ok:
+            missing.append('path [%s]' % '; '.join(bp.guard_texts())[:200])
     return missing
 
 
